@@ -7,8 +7,10 @@ CONSTANTS
   ExpiryRecheck = TRUE
   EntryApi = TRUE
   FlushLock = TRUE
+  CollectOwn = TRUE
 SPECIFICATION Spec
 INVARIANT Linearizable
 INVARIANT SerialEquiv
+INVARIANT AcctExact
 PROPERTY Termination
 VIEW View
